@@ -85,9 +85,16 @@ fn main() {
                 .ok()
                 .and_then(|s| s.parse().ok())
                 .unwrap_or_else(|| std::thread::available_parallelism().map(|n| n.get()).unwrap_or(8));
-            let nunits = prop.units(tier).len();
+            // the master generates the units once and hands each worker its share through a file
+            let shard_dir = format!("{VERIF_ROOT}/.build/shards/{}-{}-{}", prop.id(), tier.name(), std::process::id());
+            let nunits = {
+                let units = prop.units(tier);
+                explore::write_shards(&units, nshards, &shard_dir).expect("write shard files");
+                units.len()
+            };
             eprintln!("[vh] {} {}: {} units on {} workers", prop.id(), tier.name(), nunits, nshards);
-            let res = explore::run_sharded(prop.id(), tier, nshards, nunits);
+            let res = explore::run_sharded(prop.id(), tier, nshards, nunits, Some(&shard_dir));
+            let _ = std::fs::remove_dir_all(&shard_dir);
             let findings = explore::load_findings(&format!("{VERIF_ROOT}/known_findings.jsonl"), prop.id());
             // clear stale replay files of this property
             let _ = std::fs::remove_dir_all(format!("{VERIF_ROOT}/replay/{}", prop.id()));
